@@ -37,9 +37,9 @@ type Org struct {
 	Op   token.Token // binop/unop
 	X, Y *Org        // binop; index: Y = index; lookup: Y = key; slice: X=low Y=high
 
-	Alts   []*Org     // phi
-	AssTyp types.Type // typeassert
-	Global *ssa.Global
+	Alts    []*Org     // phi
+	AssTyp  types.Type // typeassert
+	Global  *ssa.Global
 	Builtin string
 
 	str string
@@ -929,7 +929,9 @@ func substOrg(o *Org, f func(*Org) *Org, d int) *Org {
 
 // DeepMentions is Mentions that also looks into the results of in-module callees (any return,
 // up to three calls deep): a computation moved into a helper is still seen.
-func (p *Prog) DeepMentions(o *Org, pred func(*Org) bool) bool { return p.deepMentions(o, pred, 0, map[*ssa.Function]bool{}) }
+func (p *Prog) DeepMentions(o *Org, pred func(*Org) bool) bool {
+	return p.deepMentions(o, pred, 0, map[*ssa.Function]bool{})
+}
 
 func (p *Prog) deepMentions(o *Org, pred func(*Org) bool, depth int, busy map[*ssa.Function]bool) bool {
 	if o == nil {
